@@ -125,6 +125,11 @@ def gen_dtls():
                "duplicate ClientHello special case")
     m.raw("Definition dup_retrigger_type : HandshakeType := HandshakeType_%s." % dup.group(1),
           "process_handshake_payload duplicate special case", MOD)
+    rf = need(r"\} else if msg\.msg_type == HandshakeType::(\w+) && !is_client && matches!\(\*self\.state\.lock\(\), DtlsState::Connected\(\.\.\)\) \{ "
+              r"if let Some\(records\) = &ctx\.last_flight_records \{ let _ = self\.conn\.send_dtls_record_batch\(records\)\.await; \} \} continue;", p,
+              "duplicate Finished on a Connected server re-sends the last flight")
+    m.raw("Definition dup_reflight_type : HandshakeType := HandshakeType_%s." % rf.group(1),
+          "process_handshake_payload duplicate Finished special case", MOD)
     need(r"if msg\.total_length != msg\.fragment_length \{", p, "fragment test")
     need(r"if ctx\.incomplete_msg_seq != msg\.message_seq \|\| msg\.fragment_offset == 0 \{", p, "fragment buffer reset rule")
     need(r"ctx\.incomplete_handshake\.extend_from_slice\(&msg\.body\[\.\.\]\);", p, "fragment append (offset ignored)")
